@@ -207,6 +207,13 @@ def validPath (p : Path) : Bool := p ≠ [] ∧ p.all validSeg
 /-- object names in canonical form (the name universe of the property) -/
 def validName (n : Name) : Bool := validPath (splitSlash n)
 
+/-- the repository location has at least one pathlib part (`str(Path(root))` is not `'.'`, `'/'` or `'//'`) -/
+def goodRoot (root : List Char) : Bool := (pparse root).parts ≠ []
+/-- the directory part of a listing prefix is a normal relative path: every segment before the last `/` is a valid segment -/
+def normalPrefix (pfx : Name) : Bool := (splitSlash pfx).dropLast.all validSeg
+/-- the name ends in the suffix the listing excludes -/
+def tmpName (n : Name) : Bool := (".tmp".toList).isSuffixOf n
+
 /-- abstraction: the object map a directory tree denotes (objects are addressed by canonical names) -/
 def FS.abs (fs : FS) : Spec := fun n => if validName n then fs.get (splitSlash n) else none
 
